@@ -72,6 +72,7 @@ def check_C19(tier):
             raise Inconclusive("TLC failed on %s\n%s" % (name, r.out[-2000:]))
         v.add_tlc(r, name + " (scheduler process reaches its exit state)")
         prio.v1_model(v, sc, binary, prio.mk1("v1stop19", [2, 1], {2: 1, 1: 2}, 2, "rate", 2, 1, 1, stop=True, cancel=True), spec="StopSpec", properties=["C16_Live"])
+        prio.simple_model(v, sc, "MC_SimpleV1")     # C19_AllExited: handlers, helper and inner discipline have ended when main is done
         # real code: every termination path of every priority-family discipline, with a goroutine dump after termination
         rnd = __import__("random").Random(seed())
         cfg = prio.mk("p2rate19", [2, 1], 3, "rate", 2, 2)
